@@ -28,6 +28,8 @@ SPEC = {
     'trusted_base': ['socket.timeout is a subclass of OSError; only socket calls and explicit raises can fail between taking and storing bytes (len/int arithmetic cannot)'],
     'assumptions': ['the socket object is used by one BufferedSocket'], 'exhaustive': True,
 }
+SPEC['explanation'] += ' T10d: no received chunk is added to the accumulated result twice (exception lattice knows InterruptedError and the other OSError subclasses, so retry handlers are explored).'
+SPEC['decided'] += ['no chunk appended twice']
 MANIFEST = {
     'technique': 'resource-conservation (holder set) analysis over enumerated CFG paths with exception edges; ordering check in the send loop; writer/reader constant agreement',
     'text': ('Decides that no byte taken off the socket or out of the buffer can be lost on any path, including every '
